@@ -21,7 +21,7 @@ from .c10 import tri_area, tri_volume
 
 KINDS = ["Box", "Sphere", "Cylinder", "Capsule", "Extrusion"]
 OPS = ["set_param", "inplace_param", "set_transform", "inplace_transform", "set_center", "apply_transform", "apply_translation", "apply_scale", "read", "copy", "to_mesh",
-       "bad_attribute", "bad_transform", "cache_clear", "mirror_transform", "set_param_pair", "negate_height", "param_there_and_back", "height_minus_one_two", "caller_edits_its_arrays"]
+       "bad_attribute", "bad_transform", "cache_clear", "mirror_transform", "set_param_pair", "negate_height", "param_there_and_back", "height_minus_one_two", "caller_edits_its_arrays", "slide", "buffer"]
 READS = ["vertices", "faces", "volume", "area", "bounds", "face_normals", "moment_inertia", "is_watertight", "center_mass", "triangles"]
 SHELL = [(0, 0), (2, 0), (2.3, 1.2), (1, 2), (-0.2, 1)]
 HOLES = [[(0.6, 0.5), (1.2, 0.5), (1.0, 1.1)], [(1.4, 1.0), (1.8, 1.0), (1.6, 1.3)]]
@@ -63,12 +63,19 @@ def construct(kind, m, src=None):
     T = np.array(m["transform"], dtype=float)
     if src is not None:
         src["transform"] = T
+    pure_translation = bool(np.array_equal(T[:3, :3], np.eye(3)))
     if kind == "Box":
+        if m.get("ctor") == "alt" and pure_translation:
+            # the other documented way to say where a box is: its axis-aligned corners
+            e = np.array(m["extents"], dtype=float)
+            return P.Box(bounds=np.array([T[:3, 3] - e / 2, T[:3, 3] + e / 2]))
         if src is not None:
             src["extents"] = np.array(m["extents"], dtype=float)
             return P.Box(extents=src["extents"], transform=T)
         return P.Box(extents=list(m["extents"]), transform=T)
     if kind == "Sphere":
+        if m.get("ctor") == "alt" and pure_translation:
+            return P.Sphere(radius=m["radius"], center=T[:3, 3].tolist(), subdivisions=m["subdivisions"])
         return P.Sphere(radius=m["radius"], transform=T, subdivisions=m["subdivisions"])
     if kind == "Cylinder":
         return P.Cylinder(radius=m["radius"], height=m["height"], transform=T, sections=m["sections"])
@@ -110,7 +117,7 @@ class C15(World):
     def generate(self, rng, cfg):
         kind = cfg["kind"]
         m = {"radius": round(rng.uniform(0.3, 2.5), 3), "height": round(rng.uniform(0.4, 4.0), 3), "extents": [round(rng.uniform(0.4, 3.0), 3) for _ in range(3)],
-             "sections": rng.choice([3, 4, 5, 8, 32]), "subdivisions": rng.choice([0, 1, 2, 3]), "holes": rng.choice([0, 1, 2]), "pscale": rng.choice(PSCALES),
+             "sections": rng.choice([3, 4, 5, 8, 32]), "subdivisions": rng.choice([0, 1, 2, 3]), "holes": rng.choice([0, 1, 2]), "pscale": rng.choice(PSCALES), "ctor": rng.choice(["std", "std", "alt"]),
              "transform": (mx.make(rng, rng.choice(["identity", "identity", "translation", "rigid", "rigid"]))).tolist()}
         if kind == "Extrusion" and rng.random() < 0.25:
             m["height"] = -m["height"]  # an extrusion may run against its axis
@@ -375,6 +382,23 @@ class C15(World):
             prim.height = -2.0
             m["height"] = -2.0
             return "ok"
+        if k == "slide":
+            # an extrusion moved along its own axis
+            if kind != "Extrusion" or not mutable:
+                raise Inapplicable()
+            d = (f - 1.0) * 2.0
+            p.slide(d)
+            m["transform"] = (np.array(m["transform"]) @ mx.hom(None, [0.0, 0.0, d])).tolist()
+            return "ok"
+        if k == "buffer":
+            # a NEW cylinder that covers this one by a distance (the history goes on with the new one; its resolution is its own)
+            if kind != "Cylinder":
+                raise Inapplicable()
+            d = abs(f - 1.0)
+            q = p.buffer(d)
+            m["radius"], m["height"] = m["radius"] + d, m["height"] + 2 * d
+            m["sections"] = int(q.primitive.sections)
+            return (q, "buffer")
         if k == "negate_height":
             if kind != "Extrusion" or not mutable:
                 raise Inapplicable()
@@ -564,6 +588,19 @@ class C15(World):
             along = (V - T[:3, 3]) @ d
             if along.min() < -tol or along.max() > abs(h) + tol:
                 fail("direction", "vertices do not lie between the base plane and |height| along the reported direction")
+        # what else the primitive says about itself follows the parameters too
+        if kind in ("Cylinder", "Capsule"):
+            if same(np.asarray(p.direction, dtype=float), T[:3, :3] @ np.array([0.0, 0.0, 1.0]), 1e-9, "direction"):
+                fail("direction", f"direction {np.asarray(p.direction).tolist()} is not the axis of the current placement")
+        if kind == "Cylinder":
+            if same(np.asarray(p.segment, dtype=float), mx.apply(T, np.array([[0.0, 0.0, -h / 2], [0.0, 0.0, h / 2]])), 1e-9, "segment"):
+                fail("segment", "segment is not the axis of the current cylinder")
+        if kind == "Sphere":
+            if same(np.asarray(p.center, dtype=float), T[:3, 3], 1e-9, "center") or same(np.asarray(p.primitive.center, dtype=float), T[:3, 3], 1e-9, "center"):
+                fail("center", "center is not the translation of the current placement")
+        if kind == "Box":
+            if same(np.asarray(p.transform, dtype=float), T, 1e-9, "transform"):
+                fail("transform", "Box.transform is not the current placement")
         if kind != "Sphere" and same(np.asarray(p.bounds), np.array([V.min(axis=0), V.max(axis=0)]), 1e-9, "bounds"):
             fail("bounds", "bounds differ from the mesh extent")
 
